@@ -501,8 +501,8 @@ def check_intra(ctx, spec):
 
 def campaigns(ctx):
     return [
-        Campaign('pair', pair_strategy, check_pair, 1100, 9000),
-        Campaign('intra', intra_strategy, check_intra, 150, 1500),
+        Campaign('pair', pair_strategy, check_pair, 800, 7000),
+        Campaign('intra', intra_strategy, check_intra, 100, 1000),
     ]
 
 
